@@ -9,6 +9,7 @@ import (
 	"bufio"
 	"bytes"
 	"encoding/base64"
+	"encoding/json"
 	"fmt"
 	"io"
 	"os"
@@ -48,8 +49,9 @@ type op struct {
 	poll  bool // read like a poller: from = number of entries this task has consumed so far
 	// ignore: entries this handle is told to ignore from now on, picked (at execution
 	// time, counted back from the newest entry known) by id or by offset
-	ignBack  []int
-	ignByOff bool
+	ignBack     []int
+	ignByOff    bool
+	ignFromFile bool // the entries are picked from the newest lines of the file itself, whoever wrote them
 }
 
 type task struct {
@@ -446,6 +448,25 @@ func (w *world) runTask(t *task) {
 			w.mu.Lock()
 			known := append([]entryInfo(nil), w.entries...)
 			w.mu.Unlock()
+			if o.ignFromFile {
+				// the operator looks at the log itself: the newest lines may have been laid down
+				// by any writer (another handle, another process), not only by handles of this world
+				if raw, err := os.ReadFile(w.data); err == nil {
+					var fe []entryInfo
+					for pos, ln := range bytes.Split(bytes.TrimRight(raw, "\n"), []byte("\n")) {
+						var m storage.Message
+						if len(ln) == 0 || json.Unmarshal(ln, &m) != nil {
+							continue
+						}
+						// the by-offset list names the offset a line carries; the expectation is kept by position
+						_ = pos
+						fe = append(fe, entryInfo{id: m.ID, off: m.Offset})
+					}
+					if len(fe) > 0 {
+						known = fe
+					}
+				}
+			}
 			var keys []string
 			for _, b := range o.ignBack {
 				if len(known) == 0 {
@@ -851,7 +872,7 @@ func (w *world) run(tier string) (bool, interface{}) {
 		t := w.tasks[tp.Choose(nw, "whichTask")]
 		if t.child == nil && tp.Choose(9, "ignore?") == 0 {
 			// the handle is told to ignore some entries (mostly the newest ones) and keeps working
-			o := op{kind: opIgnore, ignByOff: tp.Bool(1, 2, "ignoreByOffset")}
+			o := op{kind: opIgnore, ignByOff: tp.Bool(1, 2, "ignoreByOffset"), ignFromFile: tp.Bool(1, 2, "ignoreNewestLinesOfTheFile")}
 			for j := 0; j < 1+tp.Choose(2, "ignoreCount"); j++ {
 				o.ignBack = append(o.ignBack, []int{0, 0, 1, 2, 5}[tp.Choose(5, "ignoreBack")])
 			}
